@@ -29,7 +29,12 @@ OK == 0
 AnswerAt(k) == IF k <= Len(script) THEN script[k] ELSE NEED
 \* deliver a handler callback: appends to the log, yields the answer in res
 Cb(kind, id, st) == LET r == AnswerAt(Len(st.log) + 1)
-                    IN [st EXCEPT !.log = Append(@, [cb |-> kind, id |-> id, r |-> r]), !.res = r]
+                    IN [st EXCEPT !.log = Append(@, [cb |-> kind, id |-> id, r |-> r]), !.full = Append(@, [cb |-> kind, id |-> id, r |-> r]), !.res = r]
+\* deliver a syntax callback (data name: "dn", loop_ keyword: "kw"): they return nothing and are not made while skipping;
+\* `full` is the interleaving of handler and syntax callbacks, `log` the handler callbacks alone (the script's index)
+Syn(kind, t, st) == IF st.sd > 0 THEN st ELSE [st EXCEPT !.full = Append(@, [cb |-> kind, id |-> t, r |-> 0])]
+RECURSIVE SynNames(_, _, _)
+SynNames(names, i, st) == IF i > Len(names) THEN st ELSE SynNames(names, i + 1, Syn("dn", names[i], st))
 Dec(st) == IF st.sd > 0 THEN [st EXCEPT !.sd = @ - 1] ELSE st
 Store(st, id) == IF STORING THEN [st EXCEPT !.stored = @ \cup {id}] ELSE st
 
@@ -78,7 +83,7 @@ PacketsFrom(l, i, st) ==
 
 \* ---- parse_loop
 ParseLoop(l, st0) ==
-    LET st1 == IF st0.sd > 0 THEN [st0 EXCEPT !.sd = @ + 1] ELSE st0
+    LET st1 == IF st0.sd > 0 THEN [st0 EXCEPT !.sd = @ + 1] ELSE SynNames(l.names, 1, st0)      \* parse_loop_header reports each name
         \* loop_start is delivered after the header, only when not skipping
         st2 == IF st1.sd > 0 THEN [st1 EXCEPT !.res = OK]
                ELSE LET c == Cb("loop_start", l.id, st1)
@@ -106,8 +111,8 @@ RECURSIVE KidsFrom(_, _, _)
 KidsFrom(c, i, st) ==
     IF i > Len(c.kids) THEN st
     ELSE LET kid == c.kids[i]
-             r == IF kid.k = "item" THEN ParseItem(kid, st)
-                  ELSE IF kid.k = "loop" THEN ParseLoop(kid, st)
+             r == IF kid.k = "item" THEN ParseItem(kid, Syn("dn", kid.n, st))
+                  ELSE IF kid.k = "loop" THEN ParseLoop(kid, Syn("kw", "loop_", st))
                   ELSE ParseContainer(kid.c, FALSE, st)
          IN IF r.res # OK THEN r ELSE KidsFrom(c, i + 1, r)
 
@@ -135,14 +140,14 @@ BlocksFrom(i, st) ==
     ELSE LET r == ParseContainer(Doc.blocks[i], TRUE, st) IN IF r.res # OK THEN r ELSE BlocksFrom(i + 1, r)
 
 Parse ==
-    LET st0 == [log |-> <<>>, sd |-> 0, stored |-> {}, res |-> OK]
+    LET st0 == [log |-> <<>>, full |-> <<>>, sd |-> 0, stored |-> {}, res |-> OK]
         s == Cb("cif_start", "cif", st0)
-    IN IF s.res = END THEN [log |-> s.log, rc |-> 0, stored |-> s.stored, sd |-> s.sd]
-       ELSE IF s.res \notin {CONT, SKIPC, SKIPS} THEN [log |-> s.log, rc |-> s.res, stored |-> s.stored, sd |-> s.sd]
+    IN IF s.res = END THEN [log |-> s.log, full |-> s.full, rc |-> 0, stored |-> s.stored, sd |-> s.sd]
+       ELSE IF s.res \notin {CONT, SKIPC, SKIPS} THEN [log |-> s.log, full |-> s.full, rc |-> s.res, stored |-> s.stored, sd |-> s.sd]
        ELSE LET st1 == IF s.res = CONT THEN [s EXCEPT !.res = OK] ELSE [s EXCEPT !.sd = 1, !.res = OK]
                 b == Dec(BlocksFrom(1, st1))
                 e == IF b.res = OK THEN Cb("cif_end", "cif", b) ELSE b
-            IN [log |-> e.log, rc |-> IF e.res > 0 THEN e.res ELSE 0, stored |-> e.stored, sd |-> e.sd]
+            IN [log |-> e.log, full |-> e.full, rc |-> IF e.res > 0 THEN e.res ELSE 0, stored |-> e.stored, sd |-> e.sd]
 
 -----------------------------------------------------------------------------
 Init == script = <<>>
@@ -200,8 +205,25 @@ SkippedAreSilentAndUnstored ==
         /\ P.stored \cap Inside(P.log[i].cb, P.log[i].id) = {}
         /\ (P.log[i].cb = "packet_start" => P.log[i].id \notin P.stored)
 
-Properties == Balanced /\ ContinueStoresAll /\ StopIsFinal /\ StoredWasAccepted /\ AcceptedIsStored /\ SkippedAreSilentAndUnstored
+\* syntax callbacks: none for a data name that stands inside a container whose start callback answered a skip; and when
+\* every handler continues, one "dn" per data name and one "kw" per loop, each directly before what it announces
+RECURSIVE NamesIn(_)
+NamesIn(c) == UNION {IF c.kids[i].k = "item" THEN {c.kids[i].n}
+                     ELSE IF c.kids[i].k = "loop" THEN {c.kids[i].names[z] : z \in 1..Len(c.kids[i].names)}
+                     ELSE NamesIn(c.kids[i].c) : i \in 1..Len(c.kids)}
+SyntaxSilentInSkipped ==
+    \A i \in 1..Len(P.full) : (P.full[i].cb \in {"block_start", "frame_start"} /\ P.full[i].r \in {SKIPC, SKIPS}) =>
+        \A j \in 1..Len(P.full) : P.full[j].cb = "dn" => P.full[j].id \notin NamesIn(CHOOSE c \in AllConts : c.id = P.full[i].id)
+AllNames == UNION {NamesIn(Doc.blocks[i]) : i \in 1..Len(Doc.blocks)}
+SyntaxCompleteWhenContinued ==
+    (~Unfinished /\ AllContinue) =>
+        /\ \A n \in AllNames : Cardinality({j \in 1..Len(P.full) : P.full[j].cb = "dn" /\ P.full[j].id = n}) = 1
+        /\ Cardinality({j \in 1..Len(P.full) : P.full[j].cb = "kw"}) = Cardinality(AllLoops)
+        /\ \A j \in 1..Len(P.full) : P.full[j].cb = "kw" => (j < Len(P.full) /\ P.full[j + 1].cb = "dn")
+HandlerLogIsProjection == [j \in 1..Len(P.log) |-> P.log[j]] = P.log /\ Len(SelectSeq(P.full, LAMBDA e : e.cb \notin {"dn", "kw"})) = Len(P.log)
+
+Properties == SyntaxSilentInSkipped /\ SyntaxCompleteWhenContinued /\ HandlerLogIsProjection /\ Balanced /\ ContinueStoresAll /\ StopIsFinal /\ StoredWasAccepted /\ AcceptedIsStored /\ SkippedAreSilentAndUnstored
 
 EmitDone == (~Unfinished \/ Len(script) >= MaxLen) =>
-                PrintT(<<"PARSE", ToJson([script |-> script, log |-> P.log, rc |-> P.rc, stored |-> P.stored, done |-> ~Unfinished])>>)
+                PrintT(<<"PARSE", ToJson([script |-> script, log |-> P.log, full |-> P.full, rc |-> P.rc, stored |-> P.stored, done |-> ~Unfinished])>>)
 =============================================================================
